@@ -12,7 +12,7 @@ from gcmpy.tools.markov_chain_monte_carlo_rewiring import MarkovChainMonteCarloR
 from gcmpy.tools.joint_excess_joint_degree_matrices import JointExcessJointDegreeMatrices
 from gcmpy.names.tools_names import ToolsNames
 
-from . import netsim
+from . import netsim, interesting
 from .netsim import JD, TOP, MID
 from .engine import describe_exc
 
@@ -118,6 +118,10 @@ def gen_scenario(prng, tier, index, focus):
         spec = {"n": n, "topos": topos, "motifs": [{"topo": m["topo"], "verts": [v + n - top for v in m["verts"]]} for m in sub["motifs"]]}
     else:
         spec = netsim.gen_clean_spec(prng, n, topos, max(4, int(n * mult)))
+    if prng.random() < 0.25:
+        spec["jd_type"] = "list"
+    if prng.random() < 0.2:
+        spec["extra_attrs"] = [prng.choice(interesting.ATTR_NAMES[:12]), prng.choice(("int", "float", "str"))]
     variant = "faults" if index % 4 == 3 else "clean"
     mode = prng.choice(("uniform", "random", "assortative", "disassortative", "spiky"))
     remove = "none" if focus == "C11" and prng.random() < 0.7 else prng.choice(("none", "absent", "zero", "mixed"))
